@@ -261,8 +261,9 @@ func zzC15IntControl(dirch byte, mods, pm, extra int, lead []byte) zzC15IntSpec 
 	}
 	switch m3 {
 	case 1:
-		s.interval = vrt.Int("commaint")
-		vrt.Assume(1 <= s.interval && s.interval <= 12)
+		// case split: slip divides by commaint (symbolic / symbolic 64-bit
+		// division is slow for the solver, and slip's slicing enumerates it anyway)
+		s.interval = zzC15Small("commaint", 1, 12)
 		s.ctrl = zzC15AppendNum(s.ctrl, s.interval)
 	case 2:
 		s.interval = zzC15Small("commaint", 1, 12)
